@@ -39,7 +39,7 @@ from twisted.logger   import Logger
 # -----------
 
 from .interfaces import IMQTTSubscriber
-from .base       import ConnectedState as BaseConnectedState
+from .base       import ConnectingState as BaseConnectingState, ConnectedState as BaseConnectedState
 from .pubsubs    import MQTTProtocol as PubSubsMQTTProtocol
 
 
@@ -83,7 +83,8 @@ class MQTTProtocol(PubSubsMQTTProtocol):
     def __init__(self, factory, addr):
         PubSubsMQTTProtocol.__init__(self, factory, addr)
         # patches the state machine
-        self.CONNECTED = ConnectedState(self)
+        self.CONNECTING = BaseConnectingState(self)
+        self.CONNECTED  = ConnectedState(self)
         
 
 __all__ = [ "MQTTProtocol" ]
